@@ -60,6 +60,7 @@ structure WFEntry (e : Entry) : Prop where
 structure WF (d : LcDoc) : Prop where
   root : get? d.rootAttrs sVal = none
   entries : ∀ i ∈ d.insts, ∀ e ∈ i.entries, WFEntry e
+  looseWF : ∀ e ∈ d.loose, WFEntry e
 
 /-- `if current_instance not in self.changes: self.changes[current_instance] = {}` -/
 def ensure (ch : PyDict S (PyDict S S)) (id : S) : PyDict S (PyDict S S) :=
@@ -117,9 +118,9 @@ theorem get?_entryAttrs_channel (e : Entry) : get? (entryAttrs e) sChannel = e.c
     simp [get?, this]
   | some c => simp [get?]
 
-theorem step_entry_start (st : HSt) (e : Entry) (id : S) (hcur : st.current = some id)
-    (hw : WFEntry e) :
-    step st (.start (qname e) (entryAttrs e)) = .ok ⟨applyEntry id st.changes e, some id⟩ := by
+theorem step_entry_start_gen (st : HSt) (e : Entry) (cur : Option S) (id : S) (hid : orZero cur = id)
+    (hcur : st.current = cur) (hw : WFEntry e) :
+    step st (.start (qname e) (entryAttrs e)) = .ok ⟨applyEntry id st.changes e, cur⟩ := by
   have hsome : ∃ inner, get? (ensure st.changes id) id = some inner := by
     unfold ensure
     by_cases hc : contains st.changes id = true
@@ -129,7 +130,7 @@ theorem step_entry_start (st : HSt) (e : Entry) (id : S) (hcur : st.current = so
     · simp only [hc]
       exact ⟨[], get?_set_self _ _ _⟩
   obtain ⟨inner, hi⟩ := hsome
-  simp only [step, get?_entryAttrs_val, qname_ne_instanceID e hw, if_false, hcur, orZero_some id,
+  simp only [step, get?_entryAttrs_val, qname_ne_instanceID e hw, if_false, hcur, hid,
     get?_entryAttrs_channel, stripPrefix_qname e hw]
   unfold applyEntry isMaster
   unfold ensure at hi ⊢
@@ -146,6 +147,11 @@ theorem step_entry_start (st : HSt) (e : Entry) (id : S) (hcur : st.current = so
       have h2 : (c == sMaster) = false := by simpa using hm
       simp only [h1, h2, if_true, Bool.false_eq_true, if_false]
 
+theorem step_entry_start (st : HSt) (e : Entry) (id : S) (hcur : st.current = some id)
+    (hw : WFEntry e) :
+    step st (.start (qname e) (entryAttrs e)) = .ok ⟨applyEntry id st.changes e, some id⟩ :=
+  step_entry_start_gen st e (some id) id rfl hcur hw
+
 theorem step_entry_stop (st : HSt) (e : Entry) (hw : WFEntry e) : step st (.stop (qname e)) = .ok st := by
   simp only [step, qname_ne_instanceID e hw, if_false]
 
@@ -161,6 +167,19 @@ theorem run_entries (id : S) (rest : List Sax) (es : List Entry)
     have hwe := hw e List.mem_cons_self
     simp only [List.flatMap_cons, entryEvents, List.cons_append, List.nil_append, runFrom,
       step_entry_start ⟨ch, some id⟩ e id rfl hwe, step_entry_stop _ e hwe, List.foldl_cons]
+    exact ih (fun x hx => hw x (List.mem_cons_of_mem _ hx)) _
+
+/-- entries outside any `InstanceID` element (`current = None`) count for instance `"0"` -/
+theorem run_loose (rest : List Sax) (es : List Entry) (hw : ∀ e ∈ es, WFEntry e) : ∀ ch,
+    runFrom ⟨ch, none⟩ (es.flatMap entryEvents ++ rest)
+      = runFrom ⟨es.foldl (applyEntry sZero) ch, none⟩ rest := by
+  induction es with
+  | nil => intro ch; rfl
+  | cons e r ih =>
+    intro ch
+    have hwe := hw e List.mem_cons_self
+    simp only [List.flatMap_cons, entryEvents, List.cons_append, List.nil_append, runFrom,
+      step_entry_start_gen ⟨ch, none⟩ e none sZero rfl rfl hwe, step_entry_stop _ e hwe, List.foldl_cons]
     exact ih (fun x hx => hw x (List.mem_cons_of_mem _ hx)) _
 
 def applyInst (ch : PyDict S (PyDict S S)) (i : Inst) : PyDict S (PyDict S S) :=
@@ -190,14 +209,14 @@ theorem run_insts (rest : List Sax) (insts : List Inst)
 
 /-- the handler on a rendered document: the mapping is the fold of the entries' effects -/
 theorem run_events (d : LcDoc) (hw : WF d) :
-    run (events d) = .ok ⟨d.insts.foldl applyInst [], none⟩ := by
+    run (events d) = .ok ⟨d.insts.foldl applyInst (d.loose.foldl (applyEntry sZero) []), none⟩ := by
   have h1 : step {} (.start sEvent d.rootAttrs) = .ok {} := by simp [step, hw.root]
   have h2 : ∀ st : HSt, step st (.stop sEvent) = .ok st := by
     intro st
     have : sEvent ≠ sInstanceID := by decide
     simp [step, this]
   simp only [run, events, runFrom, h1]
-  rw [run_insts _ d.insts hw.entries]
+  rw [run_loose _ d.loose hw.looseWF, run_insts _ d.insts hw.entries]
   simp only [runFrom, h2]
 
 
@@ -292,13 +311,9 @@ theorem foldl_upd_none (es : List Entry) :
 
 theorem WF_of_wfB (d : LcDoc) (h : wfB d = true) : WF d := by
   simp only [wfB, Bool.and_eq_true, List.all_eq_true] at h
-  obtain ⟨hr, hi⟩ := h
-  refine ⟨?_, ?_⟩
-  · cases hg : get? d.rootAttrs sVal with
-    | none => rfl
-    | some x => simp [hg] at hr
-  · intro i hm e he
-    have := hi i hm e he
+  obtain ⟨⟨hr, hl⟩, hi⟩ := h
+  have hentry : ∀ e, wfEntryB e = true → WFEntry e := by
+    intro e this
     simp only [wfEntryB, Bool.and_eq_true] at this
     obtain ⟨h1, h2⟩ := this
     refine ⟨by simpa using h1, ?_, ?_⟩
@@ -308,6 +323,11 @@ theorem WF_of_wfB (d : LcDoc) (h : wfB d = true) : WF d := by
     · intro hp
       simp only [hp] at h2
       simpa using h2
+  refine ⟨?_, fun i hm e he => hentry e (hi i hm e he), fun e he => hentry e (hl e he)⟩
+  · cases hg : get? d.rootAttrs sVal with
+    | none => rfl
+    | some x => simp [hg] at hr
+
 
 /-! ### notify_changed_state_variables -/
 
